@@ -386,7 +386,7 @@ def canon_atom(a):
     return "%s(%s,%s)" % (a[0], canon(strip(a[1])), canon(strip(a[2])))
 
 
-def invpair(ctx, prog):
+def invpair(ctx, prog, scope=None, floors=(75, 60)):
     ctx.rule(RI, "under the `unsafe` feature every invariant!(c) becomes an optimiser assumption; each such site is subsumed by a run-time check of the safe build at the same point: a later bounds / slice-range / division check of the same function, dominated by the site, fails exactly when c is false on value-equal operands - so the safe build panics where the unsafe build would be undefined and feature-equivalence reduces to panic-freedom; sites without such a check are in a reasoned table with structural side conditions")
     res = invpair_residue(prog)
     n = 0
@@ -394,6 +394,8 @@ def invpair(ctx, prog):
     for f in prog.fns:
         sy = None
         sites = None
+        if scope is not None and not re.search(scope, f.path):
+            continue
         for i, t in f.calls():
             if callee_of(t).endswith("hint::assert_unchecked"):
                 if sy is None:
@@ -419,8 +421,8 @@ def invpair(ctx, prog):
                 if hit[1] is not None:
                     ok, w = hit[1](prog, f, sy, i)
                 ctx.ob(RI, key, ok, "reviewed: %s%s" % (hit[0], ("; " + w) if w else ""), f.loc(t["sp"]))
-    ctx.floor(RI, n, 75, "invariant! sites (assert_unchecked calls) in the unsafe configuration")
-    ctx.floor(RI, paired, 60, "sites paired with a run-time check")
+    ctx.floor(RI, n, floors[0], "invariant! sites (assert_unchecked calls) in the unsafe configuration%s" % ("" if scope is None else " in scope"))
+    ctx.floor(RI, paired, floors[1], "sites paired with a run-time check%s" % ("" if scope is None else " in scope"))
 
 
 # ---- SA-CFGDIFF -------------------------------------------------------------------------------------------------------
